@@ -9,7 +9,7 @@ ASSUME = ['demonic oracle (kani/src/oracle.rs): any correct SatSolver may return
 def run(tier, seed):
     return kani_check.run("C18", ["c18_"], tier, seed, dict(
         functions=FUNCS, bounds="number of SAT calls per solver instance (= per connected component) of the CO and ST solvers: at most two; " + BOUNDS, assumptions=ASSUME),
-        jobs=4, timeout_s=1500 if tier == "quick" else 5400)
+        jobs=6)
 
 
 def replay(path):
